@@ -150,3 +150,8 @@ func (c *LocalCloser) Close() error { return c.Sim.OnClose(nil) }
 type LocalRunner struct{ LocalBase }
 
 func (c *LocalRunner) Run() error { return c.Sim.OnRun(nil) }
+
+// OrdMix supplies Order() to component types that embed it (the engine fills in the handle).
+type OrdMix struct{ OrdH *Handle }
+
+func (o OrdMix) Order() int { return o.OrdH.Ord }
